@@ -25,8 +25,8 @@ META = dict(
 TLC_SHARDS = 6
 
 
-def gen_cfg(shard, nshards, wrapsel, div, props=True):
-    s = 'SPECIFICATION Spec\nCONSTANTS Shard = %d\n NShards = %d\n WrapSel = %d\n Div = %d\n' % (shard, nshards, wrapsel, div)
+def gen_cfg(shard, nshards, wrapsel, div, nwrap, props=True):
+    s = 'SPECIFICATION Spec\nCONSTANTS Shard = %d\n NShards = %d\n WrapSel = %d\n Div = %d\n NWrap = %d\n' % (shard, nshards, wrapsel, div, nwrap)
     if props:
         s += 'INVARIANT Props\n'
     return s + 'CONSTRAINT Emit\nCHECK_DEADLOCK FALSE\n'
@@ -34,10 +34,10 @@ def gen_cfg(shard, nshards, wrapsel, div, props=True):
 
 def tlc_cases(ctx):
     th = ctx.tier == 'thorough'
-    wrapsel = 0 if th else 1 + (ctx.seed % 11)
+    wrapsel = 1 + (ctx.seed % 11)
 
     def one(k):
-        r = ctx.tlc('QueryGen', 'qgen%d.cfg' % k, cfg_text=gen_cfg(k, TLC_SHARDS, wrapsel, 1 if th else 2), name='mcgen_query_%d' % k,
+        r = ctx.tlc('QueryGen', 'qgen%d.cfg' % k, cfg_text=gen_cfg(k, TLC_SHARDS, wrapsel, 1 if th else 2, 4 if th else 1), name='mcgen_query_%d' % k,
                     workers=2, timeout=2400 if th else 600, heap='2g')
         ctx.tlc_expect_ok(r, 'Query.tla properties over the construct inventory (shard %d)' % k)
         return r.printed
@@ -51,7 +51,7 @@ def tlc_cases(ctx):
     with_par = sum(1 for c in cases if '(' in c['min'])
     if with_par < 200 or with_par > len(cases) - 200:
         raise Inconclusive('vacuous inventory: %d of %d minimal prints contain parentheses' % (with_par, len(cases)))
-    ctx.cov['query_inventory'] = dict(trees=len(cases), exhaustive_wrappers=th, triples_sample='1/1' if th else '1/2 (seed-rotated)', min_prints_with_parentheses=with_par,
+    ctx.cov['query_inventory'] = dict(trees=len(cases), wrappers_per_triple=4 if th else 1, triples_sample='1/1' if th else '1/2 (seed-rotated)', min_prints_with_parentheses=with_par,
                                       properties=['MinStable', 'NormStable', 'SameTree(min,full)', 'Reparse(min)', 'Reparse(full)',
                                                   'RewriteReparses', 'RewriteKeepsUser', 'NoCapture', 'Slurp parts'])
     # SIM: deeper random trees
@@ -120,7 +120,7 @@ def binding_demo(ctx, evs):
 def run(ctx):
     th = ctx.tier == 'thorough'
     ctx.cov['rule'] = ('programs = syntax trees emitted by TLC for every (outer construct, child position, inner construct) triple under the '
-                       'wrappers of QueryUniv.tla (quick: the plain triple plus one seed-chosen wrapper; thorough: all), TLC-simulated deeper '
+                       'wrappers of QueryUniv.tla (quick: one seed-rotated wrapper on a seed-rotated half of the triples; thorough: four rotated wrappers on every triple), TLC-simulated deeper '
                        'trees, and seeded grammar-generated texts accepted by the embedded parser; distinct non-trivial = distinct printed '
                        'programs containing at least one binary operator, binding, definition or bracketed sub-query.')
     ctx.assumptions += ['the harness records facts only; Norm, the expected rewrite and the verdict are computed by TLC from Query.tla',
